@@ -14,7 +14,7 @@ PROPS = {
                  "tree renders to the input up to one trailing delimiter, every span is the substring holding its text, groups non-empty, "
                  "the lexer's terminal token is its last (never blocked). The hand-written model is tied to hash/parse by exhaustive small-scope "
                  "and random differential runs (tokens and trees incl. positions) against the real code, and against an independent split-based reference parser.",
-        "note": "Trusted: Lean kernel + propext/Classical.choice/Quot.sound; the model↔code tie is differential (not for all inputs); channel = rendezvous; goroutine exit observed, not proved.",
+        "note": "lexPrefix (and the lexer's emit) are regenerated from the source and DispatchFlow.lexPrefixFlow_eq_model proves they produce the model's token stream; the fragment loop and Parse remain hand models. Trusted: Lean kernel + propext/Classical.choice/Quot.sound; the model↔code tie is differential (not for all inputs); channel = rendezvous; goroutine exit observed, not proved.",
         "rule": "parse: every string up to length 7 (quick) / 9 (thorough) over {$ , _ = a} (exhaustive) plus random byte strings up to 4 KiB; "
                 "each is parsed by Go, by the Lean model and by the Lean reference parser, token streams compared up to length 6; "
                 "non-trivial/distinct = distinct result trees (including spans) or errors",
@@ -29,7 +29,7 @@ PROPS = {
                  "passes hash/password through unchanged, returns ErrHash without a call exactly for ill-formed or unregistered prefixes, registering one prefix leaves others untouched, "
                  "the dispatcher's prefix equals the parse tree's prefix (and fails exactly when the lexer fails); every documented Prefix* constant is registered in its package's init "
                  "(facts regenerated from the source). crypt.go's 15-line Check is hand-modelled and tied by exhaustive small-scope runs with recording stubs.",
-        "note": "Trusted: sync.Map as an atomic map; gogen's extraction of init registrations; correspondence is differential.",
+        "note": "The dispatcher IS the current code: crypt.Check and RegisterHash are regenerated into a structured IR and DispatchFlow.checkFlow_eq_model / registerFlow_eq_model prove that its value semantics (bounds-checked slicing, strings.HasPrefix / IndexAny, sync.Map as a last-writer-wins map) equals the hand model for all registries, hashes and passwords — in particular no slice in Check can panic and Check never changes the registry; lexPrefixFlow_prefix_eq_dispatch ties the lexer's regenerated prefix rule to the same model. Trusted: sync.Map as an atomic map; gogen's extraction of init registrations; correspondence is differential.",
         "rule": "dispatch: 15 documented prefixes probed through the real registry; then recording stubs: every string up to length 6 (quick) / 8 (thorough) over {$ , _ a b} (exhaustive), "
                 "every registration history up to length 3 (quick) / 4 (thorough) over 6 prefixes incl. re-registration, '_', '' and a built-in prefix, probing all 6 after each step; random strings/histories; "
                 "non-trivial/distinct = distinct (outcome kind, handler, length) classes and distinct histories",
@@ -99,7 +99,7 @@ PROPS = {
         "level": "proof",
         "technique": "Lean 4 proof (code-shaped KDF skeleton = reference written from the published algorithm, for all inputs and all hash functions; loop closed forms by induction) + Go/Lean key correspondence on all ten schemes",
         "claim": "Kernel-checked for ALL passwords, salts, round counts (and ALL hash functions where the scheme has one): every scheme's code-shaped model equals a reference written from the published algorithm — md5-crypt (PHK), SHA-crypt (Drepper), sha1-crypt (iterated HMAC), Sun MD5 (coin-toss rounds), NT hash (MD4 of UTF-16LE), bcrypt (EksBlowfish with the per-prefix key rules), DES-crypt and BSDi (salted DES iterated 25 / n times, key folding) — and the table-driven DES of des/descrypt, whose tables are regenerated from const.go on every run, equals FIPS 46-3 DES with the crypt(3) salt swap for every 64-bit key and block (C03b.encrypt_eq_fips). Final permutation tables are permutations; the digest encoding = the bit-level base64 spec (C16). Go is tied to the models key for key (kdf suite) and to the system's libxcrypt in both directions (xcrypt suite).",
-        "note": "Every scheme now has a reference written from the published algorithm and a kernel-checked model = reference theorem for all inputs (Props/C03b.lean): sha1crypt_eq_spec (iterated HMAC), sunmd5_eq_spec(_wrap) (coin-toss rounds), nthash_eq_spec (MD4 of UTF-16LE; Go's one-U+FFFD-per-bad-byte rule), bcrypt_eq_spec (EksBlowfish, key‖NUL rules per prefix) with bcrypt_long_password_deviation stating the documented pre-2b ≥254-byte rule exactly, descrypt/desext_layer_eq_spec (25 / n salted DES iterations, BSDi key folding, 11-symbol output), and encrypt_eq_fips — the table-driven DES of des/descrypt, with its tables REGENERATED from const.go, equals FIPS 46-3 DES with the crypt(3) salt swap for every 64-bit key and block (table facts ie3264_is_IP_then_E, spe_is_E_P_S, pc_tables_are_PC1_shifts_PC2, cf6464_is_IPinv, salt_is_E_swap decided by the kernel). "
+        "note": "The KDF bodies ARE the current code for md5-crypt, SHA-crypt (with duplicate), cryptoutil.Permute and the HMAC loop of sha1-crypt: gogen regenerates a hash-transcript IR from md5crypt.Encrypt / sha2crypt.Encrypt / sha1.Key on every run, and KdfIR.*_ir_eq_model prove that interpreting it (generically in H; Go panics included) gives exactly the hand-written skeletons, for all inputs. The proof exposed one difference outside Key's domain: at rounds = 0 the exported sha2crypt.Encrypt returns Permute(H(password × len)) (a reused variable), the skeleton returns the permuted digest A — unreachable through Key, whose guards enforce rounds ≥ 1000 (stated as sha2crypt_ir_zero_rounds). Sun MD5, DES/BSDi and bcrypt bodies remain hand models tied by correspondence. Every scheme now has a reference written from the published algorithm and a kernel-checked model = reference theorem for all inputs (Props/C03b.lean): sha1crypt_eq_spec (iterated HMAC), sunmd5_eq_spec(_wrap) (coin-toss rounds), nthash_eq_spec (MD4 of UTF-16LE; Go's one-U+FFFD-per-bad-byte rule), bcrypt_eq_spec (EksBlowfish, key‖NUL rules per prefix) with bcrypt_long_password_deviation stating the documented pre-2b ≥254-byte rule exactly, descrypt/desext_layer_eq_spec (25 / n salted DES iterations, BSDi key folding, 11-symbol output), and encrypt_eq_fips — the table-driven DES of des/descrypt, with its tables REGENERATED from const.go, equals FIPS 46-3 DES with the crypt(3) salt swap for every 64-bit key and block (table facts ie3264_is_IP_then_E, spe_is_E_P_S, pc_tables_are_PC1_shifts_PC2, cf6464_is_IPinv, salt_is_E_swap decided by the kernel). "
                 "Partial: hash/cipher primitives (MD4/MD5/SHA/HMAC/Blowfish) are parameters or hand copies validated differentially; Go is tied to the system's libxcrypt 4.4 (cgo, crypt_r) in both directions on the shared domain by the xcrypt suite (a test, labelled as such). Known finding F11: libxcrypt's zero-rounds Sun MD5 form \"$md5$salt$$digest\" is rejected here.",
         "rule": "kdf: per scheme passwords of 30 boundary lengths (0..257 around 8/16/32/56/64/72/128/254/256) plus random lengths ≤ 300, 8-bit content, every legal salt length class, rounds dense near the minimum, all prefix/option variants; "
                 "Go Key vs Lean model (hand-written skeleton over Lean primitives), results compared byte for byte; "
@@ -115,7 +115,7 @@ PROPS = {
         "technique": "Lean 4 proof (totality of every model function by kernel-checked recursion; explicit panic values proved unreachable) + outcome-class correspondence with recover and watchdog on structured mutations and short junk strings",
         "claim": "Kernel-checked: the parser model always returns (error or tree), never stores a nil value, groups are non-empty; the KDF skeletons return a key for EVERY password length and hash function; every base64 alphabet index is < 64; the lexer's terminal token is its last. "
                  "Go side: every Check/Params/Key call in the suites runs under recover + 90 s watchdog; the outcome class (ok / typed error / panic / timeout) must equal the model's, on every edit-distance-1 mutation of valid hashes of all ten schemes and all short strings over {$ , = _ a 0}.",
-        "note": "Partial: panics inside reflect/strconv/stdlib crypto for inputs the model considers fine are only sampled; Go-side termination is observed by watchdog, proved only for the model; no coverage-guided fuzzing in this revision.",
+        "note": "KdfIR.md5crypt_ir_eq_model and companions include the panic outcomes of the regenerated KDF code (d[:i], password[:1], Permute out of range): the regenerated program panics exactly where the hand model does, i.e. never on Key's domain. Partial: panics inside reflect/strconv/stdlib crypto for inputs the model considers fine are only sampled; Go-side termination is observed by watchdog, proved only for the model; no coverage-guided fuzzing in this revision.",
         "rule": "kdf + classify + parse + dispatch + b64 + stream + codec: see the C03, C06, C11, C07, C16, C17, C10 rules; every call wrapped in recover and a watchdog; any operation on which the implementation panics or hangs is a failing input; non-trivial/distinct as in those suites",
         "trusted": COMMON_TRUST,
         "assumptions": ["cost fields of generated inputs are capped so that each call is cheap"],
